@@ -216,6 +216,39 @@ theorem apptype_roundtrip (kind : Str) :
     getAppTypePrefix (getAppType (getAppTypePrefix kind)) = getAppTypePrefix kind :=
   getAppTypePrefix_getAppType kind
 
+/-- "a key decodes back to the … app type … it was built from": the two built-in prefixes are reached ONLY from
+    their documented owner kinds (up to case) and the tables' own short words — no other kind (e.g. a custom
+    resource `StatefulSetPlus`) can land on `sts_` / `dp_` and so share an app prefix with a real StatefulSet or
+    Deployment of the same name. -/
+theorem builtin_prefix_only_from_documented_kinds (kind : Str) :
+    (getAppTypePrefix kind = stsPrefix → lower kind ∈ ["statefulset".toList, "statefulsets".toList, "sts".toList]) ∧
+    (getAppTypePrefix kind = dpPrefix → lower kind ∈ ["deployment".toList, "replicaset".toList, "dp".toList]) := by
+  unfold getAppTypePrefix getAppTypePrefixT
+  by_cases hk : kind = noRefAppName
+  · subst hk; constructor <;> intro h <;> revert h <;> decide
+  · have hE : assoc appTypePrefixExact kind = none := by
+      simp only [appTypePrefixExact, assoc]
+      rw [if_neg (fun e => hk e.symm)]
+    rw [hE]; simp only
+    generalize lower kind = lk
+    by_cases h1 : lk = "deployment".toList
+    · subst h1; constructor <;> intro h <;> revert h <;> decide
+    by_cases h2 : lk = "replicaset".toList
+    · subst h2; constructor <;> intro h <;> revert h <;> decide
+    by_cases h3 : lk = "statefulset".toList
+    · subst h3; constructor <;> intro h <;> revert h <;> decide
+    by_cases h4 : lk = "statefulsets".toList
+    · subst h4; constructor <;> intro h <;> revert h <;> decide
+    have hL : assoc appTypePrefixLower lk = none := by
+      simp only [appTypePrefixLower, assoc]
+      rw [if_neg (fun e => h1 e.symm), if_neg (fun e => h2 e.symm), if_neg (fun e => h3 e.symm), if_neg (fun e => h4 e.symm)]
+    rw [hL]; simp only [appTypePrefixSuffix, stsPrefix, dpPrefix]
+    constructor <;> intro h
+    · have := (List.append_inj' (t₁ := ['_']) (t₂ := ['_']) (s₂ := ['s', 't', 's']) h rfl).1
+      subst this; decide
+    · have := (List.append_inj' (t₁ := ['_']) (t₂ := ['_']) (s₂ := ['d', 'p']) h rfl).1
+      subst this; decide
+
 /-- the three constant prefixes explicitly: `dp_ ↦ deployment ↦ dp_`, `sts_ ↦ statefulset ↦ sts_`, `NULL_ ↦ NULL ↦ NULL_` -/
 theorem apptype_roundtrip_consts :
     getAppTypePrefix (getAppType dpPrefix) = dpPrefix ∧ getAppTypePrefix (getAppType stsPrefix) = stsPrefix ∧
